@@ -152,7 +152,7 @@ func c19Path(t *rapid.T) {
 		o.ResumeFromBreakPoint, o.Parallel, o.KeyExists, o.TargetDB, o.SenderCount, o.SenderSize = true, 1, "none", -1, 1024, 104857600
 		id := <-incrSlots
 		s := drawE2E(t)
-		sig, msg := runE2E(s, id)
+		sig, msg := runE2E(s, id, false)
 		time.AfterFunc(5*time.Second, func() { incrSlots <- id })
 		o.ResumeFromBreakPoint = false
 		resetIncrConf()
